@@ -1899,7 +1899,10 @@ impl TransactionBuilder {
             Some(Ordering::Less) => Err(JsError::from_str("Insufficient input in transaction")),
             Some(Ordering::Greater) => {
                 fn has_assets(ma: Option<MultiAsset>) -> bool {
-                    ma.map(|assets| assets.len() > 0).unwrap_or(false)
+                    // only positive quantities are change; an entry with quantity 0 (it can come in with an input
+                    // value) needs no change output
+                    ma.map(|assets| assets.partial_cmp(&MultiAsset::new()) == Some(Ordering::Greater))
+                        .unwrap_or(false)
                 }
                 let change_estimator = input_total.checked_sub(&output_total)?;
                 if has_assets(change_estimator.multiasset()) {
@@ -2159,6 +2162,8 @@ impl TransactionBuilder {
                     }
                     Ok(true)
                 } else {
+                    // pure ADA change (asset entries with quantity 0 are not carried over)
+                    let change_estimator = Value::new(&change_estimator.coin());
                     let mut calc = MinOutputAdaCalculator::new_empty(&self.config.utxo_cost())?;
                     calc.set_amount(&change_estimator);
                     if let Some(data) = &plutus_data {
